@@ -2,6 +2,8 @@
 reader, compare canonical content; validate XML against the shipped XSD with lxml."""
 import io
 import os
+
+import numpy as np
 import tempfile
 import warnings
 import contextlib
@@ -53,7 +55,16 @@ def read(case, path):
     fmt = FileFormat.XML if case.get("fmt", "xml") == "xml" else FileFormat.PROTOBUF
     with contextlib.redirect_stdout(io.StringIO()), warnings.catch_warnings():
         warnings.simplefilter("ignore")
-        return CommonRoadFileReader(path, file_format=fmt).open()
+        reader = CommonRoadFileReader(path, file_format=fmt)
+        if case.get("seed", 0) % 4 == 1:
+            # one reader object asked twice: what it handed out the first time is the caller's (here: moved away);
+            # the second answer is the file's content again
+            first = reader.open_lanelet_network() if case.get("seed", 0) % 8 == 1 else reader.open()[0].lanelet_network
+            try:
+                first.translate_rotate(np.array([123.0, -77.0]), 0.5)
+            except Exception:  # noqa - the first answer is not what is judged
+                pass
+        return reader.open()
 
 
 def expected_canon(case, sc, pps, meta):
